@@ -215,7 +215,7 @@ func builtinGhostSort(name string) (string, bool) {
 		return arrSort(SStr, SInt), true
 	case name == "signalled":
 		return arrSort(SInt, SBool), true
-	case name == "sends", name == "closes", name == "broadcasts", name == "wgdone", name == "tickerStopped":
+	case name == "sends", name == "closes", name == "broadcasts", name == "condsignals", name == "wgdone", name == "tickerStopped":
 		return arrSort(SInt, SInt), true
 	case name == "usercalls":
 		return SInt, true
